@@ -21,7 +21,8 @@ Proof. split; reflexivity. Qed.
 (* which tree is this?  The registry-API probe (Register; UpdateAuth 100; UpdateAuth 200) on the real code decides. *)
 (* ... and the registry-API probe (Register; Register again with the same stream) tells Head from the repaired tree *)
 Definition tree_variant : variant :=
-  if probe_reauth_keeps_old_index then Pinned else if probe_rereg_closes_shared_stream then Head else Current.
+  if probe_reauth_keeps_old_index then Pinned else if probe_rereg_closes_shared_stream then Head
+  else if probe_updateauth_evicts_holder then Current else Head2.
 Definition probe_cfg : cfg := {| maxConn := 0; maxCtl := 0; hbTimeout := 2 |}.
 
 Lemma reauth_probe_matches_model :
@@ -41,6 +42,13 @@ Proof. vm_compute. reflexivity. Qed.
 Lemma rereg_probe_matches_model :
   (if probe_reauth_keeps_old_index then true else
    Bool.eqb (mem 1 (closed (run tree_variant probe_cfg init [Accept 1; RegRaw 1 0; ReReg 1 9]))) probe_rereg_closes_shared_stream) = true.
+Proof. vm_compute. reflexivity. Qed.
+
+(* UpdateAuth for a client that already has a control connection: evicts it (Current) or leaves it registered (Head2 and older) *)
+Lemma updateauth_probe_matches_model :
+  (if probe_reauth_keeps_old_index then true else if probe_rereg_closes_shared_stream then true else
+   Bool.eqb (match by_conn (run tree_variant probe_cfg init [Accept 1; Accept 2; RegRaw 1 0; RegRaw 2 0; AuthRaw 1 7; AuthRaw 2 7]) 1 with
+             | None => true | Some _ => false end) probe_updateauth_evicts_holder) = true.
 Proof. vm_compute. reflexivity. Qed.
 
 (* The theorems treat every ClientRegistry method as ONE critical section.  The shapes are read from client_registry.go with
